@@ -40,6 +40,7 @@ RULE += " Round 8: saved field names starting with 'info'; recordings of three r
 RULE += ' Round 9: a foreign two-column cluster_quality.csv next to the saved cluster_quality.tsv; a tab-separated .csv; an unterminated quote in front of more than 128 KiB of rows.'
 RULE += ' Round 10: recordings shorter than one waveform window.'
 RULE += ' Round 11: a 16-byte header on each of two raw files; a comma-separated table with a tab inside a cell; a table that is a dangling symbolic link.'
+RULE += ' Round 12: requests that mix stored spikes with a non-stored one lying between them (unit factor 1).'
 EXHAUSTIVE = {'quick': True, 'thorough': True}
 EXHAUSTIVE_SCOPE = {'quick': 'histories of length <= 2 over the 9-operation reduced alphabet; random part sampled',
                     'thorough': 'histories of length <= 3 over the reduced alphabet; random part sampled'}
